@@ -219,7 +219,7 @@ def check_size(F, name, ks):
     total = 0
     for c in F:
         total += g ** len(c) if len(c) < 40 else 10 ** 9
-        if total > 80000:
+        if total > 140000:
             raise TooBig()
     if F.number_of_variables() * (ks[0] if ks else 3) > 200000:
         raise TooBig()
@@ -230,10 +230,21 @@ def _binom(n, k):
     return comb(n, k) if 0 <= k <= n else 1
 
 
-def library_text(F):
+def library_text(F, fmt='dimacs'):
     buf = io.StringIO()
-    F.to_file(buf, fileformat='dimacs', export_header=False)
+    F.to_file(buf, fileformat=fmt, export_header=False)
     return buf.getvalue()
+
+
+def with_format(rng, cs):
+    """insert an output format option among the options in front of the formula name"""
+    argv = cs['argv']
+    k = next((i for i, a in enumerate(argv) if not a.startswith('-')), len(argv))
+    fmt = rng.choice(['opb', 'opb', 'dimacs'])
+    i = rng.randint(0, k)
+    cs['argv'] = argv[:i] + [rng.choice(['-of', '--output-format']), fmt] + argv[i:]
+    cs['fmt'] = fmt
+    return cs
 
 
 DECOR = [lambda s: '+' + s, lambda s: ' ' + s, lambda s: s + ' ', lambda s: '0' + s, lambda s: '\t' + s + '\n', lambda s: '00' + s]
@@ -426,13 +437,19 @@ def gen_thresholds(rng, tier):
     # arity 17 (and 16) of every transformation, on tiny formulas
     for k in (16, 17):
         for t in TRANS1:
-            # the substitution of a clause is a product over its literals: unit clauses for the exponential gadgets
-            base = dict(sub='and', args=[1, 1]) if t in ('xor', 'maj') else rng.choice([dict(sub='and', args=[1, 1]), dict(sub='or', args=[1, 1]), dict(sub='php', args=[2, 1])])
-            if t == 'xor' and quick and k == 16:
-                continue
+            # the substitution of a clause is a product over its literals: ONE unit clause for the exponential gadgets
+            # (xor of arity 17: 65536 clauses of 17 literals for that single literal)
+            if t == 'xor':
+                if quick and k == 16:
+                    continue
+                base = dict(sub='and', args=[1, 0]) if quick or rng.random() < 0.5 else dict(sub='and', args=[0, 1])
+            elif t == 'maj':
+                base = dict(sub='and', args=[1, 1])
+            else:
+                base = rng.choice([dict(sub='and', args=[1, 1]), dict(sub='or', args=[1, 1]), dict(sub='php', args=[2, 1])])
             out.append(dict(base, chain=[(t, [k])]))
         for t in TRANS2:
-            for c in rng.sample([1, 2, 8, 9, k - 1, k, k + 1], 2 if quick else 5):
+            for c in (rng.sample([1, 2, k - 1, k, k + 1], 2) if quick else rng.sample([1, 2, 8, 9, k - 1, k, k + 1], 5)):
                 out.append(dict(sub='and', args=[1, 1], chain=[(t, [k, c])]))
         out.append(dict(sub='or', args=[k, 0], chain=[('flip', [])]))
         out.append(dict(sub='and', args=[k, 1], chain=[('ite', [])]))
@@ -537,7 +554,7 @@ def gen_malformed(rng, case):
 # --------------------------------------------------------------------------
 def site_of(argv):
     """<sub-command>[+T]: deterministic classification of an argv"""
-    sub = next((a for a in argv if not a.startswith('-')), '-')
+    sub = next((a for i, a in enumerate(argv) if not a.startswith('-') and not (i and argv[i - 1] in ('-of', '--output-format'))), '-')
     known = {'php', 'bphp', 'rphp', 'count', 'parity', 'cliquecoloring', 'op', 'ram', 'vdw', 'ptn', 'cpls', 'and', 'or', 'true', 'false',
              'kcolor', 'ec', 'tiling', 'matching', 'kclique', 'kcliquebin', 'domset', 'tseitin', 'subsetcard', 'peb', 'stone'}
     return 'pipeline:' + (sub if sub in known else 'other')
@@ -567,7 +584,7 @@ def tool_agrees(m, r):
     if m[0] == 'out':
         return r['rc'] == 0 and r['out'] == m[1]
     if m[0] == 'clierror':
-        return r['rc'] == 255 and r['out'] == '' and 'Traceback' not in r['err'] and r['err'].startswith('c ')
+        return r['rc'] == 255 and r['out'] == '' and 'Traceback' not in r['err'] and r['err'][:2] in ('c ', '* ')
     return False
 
 
@@ -620,13 +637,17 @@ def run_pipeline(ctx):
     for b in rng.sample(BIG, 2):
         c = dict(sub='vdw', args=[3, b, 2], plain=True, chain=[])
         cases.append(dict(stream='verbose', case=c, argv=render(rng, c, quiet=[]), verbose=True))
+    for cs in cases:
+        if cs['case'] is not None and rng.random() < 0.2:
+            with_format(rng, cs)
     # ---- the library side first: it tells which cases are too large
     keep = []
     for cs in cases:
         if cs['case'] is not None:
             try:
                 F = library_formula(cs['case'], cnfgen)
-                cs['lib'] = ('ok', library_text(F), F.number_of_variables(), len(F), ['c %s: %s' % kv for kv in F.header.items()])
+                cs['lib'] = ('ok', library_text(F, cs.get('fmt', 'dimacs')), F.number_of_variables(), len(F),
+                             [('* ' if cs.get('fmt') == 'opb' else 'c ') + '%s: %s' % kv for kv in F.header.items()])
             except TooBig:
                 ctx.tally('pipeline skipped', 'predicted too large')
                 continue
@@ -683,11 +704,16 @@ def run_pipeline(ctx):
         head_ok = True
         if cs.get('verbose') and r['rc'] == 0:
             lines = r['out'].split('\n')
-            comments = [ln for ln in lines if ln.startswith('c')]
-            body = '\n'.join(ln for ln in lines if not ln.startswith('c'))
+            if cs.get('fmt') == 'opb':
+                mark, first, lines = '*', lines[:1], lines[1:]          # the line with the counts also starts with '*'
+            else:
+                mark, first = 'c', []
+            comments = [ln for ln in lines if ln.startswith(mark)]
+            body = '\n'.join(first + [ln for ln in lines if not ln.startswith(mark)])
             # and / or / true / false have no library generator (the helper builds the formula and its description itself)
             if lib_res is not None and lib_res[0] == 'ok' and not any('\n' in x or '\t' in x for x in argv) and cs['case']['sub'] not in ('and', 'or', 'true', 'false'):
-                head_ok = comments[:-2] == lib_res[4] and comments[-1:] == ['c'] and comments[-2:-1] == ['c command line: cnfgen ' + ' '.join(argv)]
+                head_ok = (comments[:-2] == lib_res[4] and comments[-1:] == [mark]
+                           and comments[-2:-1] == [mark + ' command line: cnfgen ' + ' '.join(argv)])
         if ok and lib_res is not None:
             if m[0] == 'out' and lib_res[0] == 'ok' and (lib_res[1] != body or not head_ok):
                 ok = False
@@ -716,7 +742,7 @@ def run_pipeline(ctx):
             ctx.violation('counterexample', 'the command line writes a formula although the documented library call raises ValueError', replay, True, site=site, cls=cl)
         elif lib_res is not None and lib_res[0] == 'exc':
             ctx.violation('counterexample', 'the documented library call raises %s' % lib_res[1], replay, True, site=site, cls=cl)
-        elif m[0] == 'clierror' and r['rc'] == 255 and r['out'] == '' and not r['err'].startswith('c '):
+        elif m[0] == 'clierror' and r['rc'] == 255 and r['out'] == '' and r['err'][:2] not in ('c ', '* '):
             ctx.violation('counterexample', 'command line error without the comment prefix of the output format', replay, True, site=site, cls=cl)
         else:
             ctx.violation('correspondence', 'the pipeline model (coq/Pipeline.v) and the tool disagree (model %s, tool exit %s)' % (m[0], r['rc']), replay, False, site=site, cls=cl)
